@@ -271,7 +271,7 @@ static void DecodeImm(Word Index) {
 
     if (ChkArgCnt(1, (pOrder->Mask != 0xffff) ? 1 : 2)) {
         tEvalResult EvalResult;
-        LongInt AdrLong = EvalStrIntExpressionWithResult(&ArgStr[1], Int32, &EvalResult);
+        LargeInt AdrLong = EvalStrIntExpressionWithResult(&ArgStr[1], Int32, &EvalResult);
 
         if (EvalResult.OK) {
             if (mFirstPassUnknown(EvalResult.Flags)) {
